@@ -1,6 +1,7 @@
 import Ecal.Drivers.Util
 import Ecal.Drivers.EvalCommon
 import Ecal.Model.Prims
+import Ecal.Model.FragB
 /-!
 Model side of C06 (payload formats: see go/cmd/harness/c06.go).
 
@@ -40,12 +41,14 @@ open Ecal.Prims in
 def univ : List PVal :=
   let minInt : Int := -9223372036854775808
   [.null, .bool true, .num 0 1, .num (-1) 0, .num 1 2, .num minInt minInt, .str "" none, .str "a" none,
-   .str "1" (some (1, 2)), .list [], .list [.num 1 2], .map [], .map [(.str "a" none, .num 1 2)], .func 0]
+   .str "1" (some (1, 2)), .list [], .list [.num 1 2], .map [], .map [(.str "a" none, .num 1 2)], .func 0,
+   -- -0.5 (int(-0.5) = int(0.5) = 0), -1e+300, NaN, +Inf (amd64: the conversion yields the smallest int64)
+   .num 0 0, .num minInt minInt, .num minInt minInt, .num minInt minInt]
 
 /-- printed form (fmt.Sprint) of a univ value where it is known: the error type of `raise(v)` -/
 def univText : List (Option String) :=
   [some "<nil>", some "true", some "0", some "-1", some "1.5", some "1e+300", some "", some "a", some "1",
-   some "[]", some "[1]", some "map[]", some "map[a:1]", none]
+   some "[]", some "[1]", some "map[]", some "map[a:1]", none, some "-0.5", some "-1e+300", some "NaN", some "+Inf"]
 
 def runtimeErrHex : String := hexEnc (strBytes "Runtime error")
 
@@ -53,7 +56,7 @@ def runtimeErrHex : String := hexEnc (strBytes "Runtime error")
     wraps them into a "Runtime error"; `range` signals "Function is an iterator") -/
 def primsClass (name : String) (ix : List Nat) : Option Cls :=
   let args := ix.map fun i => univ.getD i .null
-  match Ecal.Prims.builtin (fun _ => .ok ()) name args with
+  match Ecal.Prims.builtin name args with
   | none => none
   | some r =>
     if name == "raise" then
@@ -89,8 +92,8 @@ def modeResult (mode : String) (c : Cls) (log : String) : String :=
   match c with
   | .unsup w => "UNSUP " ++ w
   | .hang => "HANG" | .panic => "PANIC"
-  | .noparse => if mode == "s" then "SINKFAIL NOPARSE" else "NOPARSE"
-  | .verr t => if mode == "s" then "SINKFAIL V ERR " ++ t else "V ERR " ++ t
+  | .noparse => if mode == "p" || mode == "t" then "NOPARSE" else "SINKFAIL NOPARSE"
+  | .verr t => if mode == "p" || mode == "t" then "V ERR " ++ t else "SINKFAIL V ERR " ++ t
   | .vother => "UNSUP validation outcome"
   | c =>
     if mode == "p" then clsText c ++ " LOG " ++ log
@@ -98,9 +101,15 @@ def modeResult (mode : String) (c : Cls) (log : String) : String :=
       -- an error is caught by the bare except clause (its marker shows), the program ends normally
       if isControlCls c then clsText c ++ " LOG " ++ log
       else "OK LOG " ++ (if isErr c then joinLog log (mark 1) else log)
-    else
+    else if mode == "s" then
       -- inside a sink: one failed invocation reported for the first event, the second event is processed normally
       s!"SINK {if isErr c then 1 else 0} 0 LOG {joinLog log (mark 2)}"
+    else if mode == "d" then
+      -- two sinks on ONE event: the other sink (higher priority) runs, this one fails alone
+      s!"SINKD {if isErr c then 1 else 0} LOG {joinLog (mark 3) log}"
+    else
+      -- the same sink triggered twice: the second invocation behaves like the first
+      s!"SINKW {if isErr c then 1 else 0} {if isErr c then 1 else 0} LOG {joinLog log log}"
 
 def sinkAttrClass (attr : String) (i : Nat) : String :=
   open Ecal.Prims in
@@ -120,7 +129,8 @@ def sinkAttrClass (attr : String) (i : Nat) : String :=
 
 def eventClass (i j : Nat) : String :=
   -- statematch {"a": U_i} against state {"a": U_j}: null matches any value, otherwise equal values
-  let fired := i == 0 || i == j
+  -- (NaN is never equal to itself: index 16)
+  let fired := i == 0 || (i == j && i != 16)
   "OK LOG " ++ (if fired then mark 1 else "")
 
 /-- does `v` reach a container that is already on the path to it? (list identity = backing array) -/
@@ -139,6 +149,15 @@ def heapCyclic : Result → Bool
     (List.range st.maps.size).any (fun r => cyclicFrom st [] (.map r))
   | _ => false
 
+/-- the program is inside the fragment of `eval_never_panics_partial`: the tree the real parser produced and
+    the trees of its embedded expressions pass `fragB` (then `Frag` holds and `Inv` holds for the initial state) -/
+def fragOK (prog : Program) : Bool :=
+  match prog.ast with
+  | some n =>
+    Ecal.FragB.fragB 400 n &&
+    prog.interp.all fun e => match e.2 with | .ast a => Ecal.FragB.fragB 400 a | .text _ => true
+  | none => false
+
 def hasCycleKf (label : String) : Bool := label == "cyclic"
 
 def runCase (payload : String) : String :=
@@ -151,14 +170,15 @@ def runCase (payload : String) : String :=
       let (c, log) := classify res
       let outside := match c with | .unsup _ => true | .hang => true | _ => false
       if label == "random" && heapCyclic res && outside then
-        "UNSUP a container that contains itself, outcome outside the model"
+        -- outside the model AND a cyclic heap: props/C06.py accepts Go's `CRASH so-stringify` here as the known finding
+        "UNSUP a container that contains itself, outcome outside the model\tcyc=1"
       else if label == "random" && heapCyclic res then
         -- the program built a container that contains itself: if it also stringifies it the real code
         -- dies (known finding), otherwise it behaves as the model says
-        "CRASH\tkf=cyclic-container-stringify\tspec=" ++ modeResult mode c log ++ "\tnt=1"
+        "CRASH so-stringify\tkf=cyclic-container-stringify\tspec=" ++ modeResult mode c log ++ "\tnt=1"
       else if label == "cyclic" then
-        -- known finding: the real code overflows the stack; the property demands an error value
-        "CRASH\tkf=cyclic-container-stringify\tspec=ERR\tnt=1"
+        -- known finding: the real code overflows the stack inside fmt; the property demands an error value
+        "CRASH so-stringify\tkf=cyclic-container-stringify\tspec=ERR\tnt=1"
       else
         let c : Cls := match c with
           | .unsup w =>
@@ -171,7 +191,13 @@ def runCase (payload : String) : String :=
             | _ => .unsup w
           | c => c
         let nt := match c with | .err _ => "\tnt=1" | .errplain => "\tnt=1" | _ => ""
-        modeResult mode c log ++ nt
+        modeResult mode c log ++ nt ++ (if fragOK prog then "\tfrag=1" else "\tfrag=0")
+  | ["K", _variant, _workers, prot, _n] =>
+    -- a container shared by the main thread and a sink triggered without waiting: under `mutex` both finish;
+    -- without it two ECAL threads use one Go map / slice unsynchronised (known finding; Go may or may not die)
+    let okBoth := "OK LOG " ++ mark 1 ++ "|" ++ mark 2
+    if prot == "1" then okBoth ++ "\tnt=1"
+    else "CRASH concurrent-map\tkf=unsynchronised-shared-container\tspec=" ++ okBoth ++ "\tnt=1"
   | ["A", attr, i] => sinkAttrClass attr i.toNat! ++ "\tnt=1"
   | ["E", i, j] => eventClass i.toNat! j.toNat! ++ "\tnt=1"
   | _ => "bad-payload"
